@@ -162,9 +162,11 @@ structure Bnd (s : St) (c : Ctl) (done : List Cmd) (liveL : List (Nat × List Cm
   split : ∃ pre, done = pre ++ (liveL.map (·.2)).flatten
   ids : ∀ t ∈ liveL, t.1 < c.tgid
   last : ∀ id, c.lastCommitted = some id → liveL.any (fun t => t.1 = id) = true ∧ ∀ t ∈ liveL, t.1 ≤ id
+  noneLive : c.lastCommitted = none → liveL = []
+  sorted : (liveL.map (·.1)).Pairwise (· < ·)
 
 theorem bnd_init : Bnd {} {} [] [] :=
-  ⟨rfl, rfl, fun _ => rfl, ⟨[], rfl⟩, by simp, by intro id h; cases h⟩
+  ⟨rfl, rfl, fun _ => rfl, ⟨[], rfl⟩, by simp, (by intro id h; cases h), fun _ => rfl, by simp⟩
 
 theorem take_len_add {α} (a b : List α) (i : Nat) : (a ++ b).take (a.length + i) = a ++ b.take i := by
   induction a with
@@ -253,7 +255,15 @@ theorem flush_full {s c done liveL} (h : Bnd s c done liveL) (cmds : List Cmd) :
     (run s (flushEffects c.tgid cmds)).acked = s.acked + 1 := by
   rw [flushEffects_eq, run_append, run_walAppends, run_append, run_append, run_prims]
   simp only [run, List.foldl_cons, List.foldl_nil, exec]
-  refine ⟨⟨?_, ?_, ?_, ?_, ?_, ?_⟩, by simp⟩
+  refine ⟨⟨?_, ?_, ?_, ?_, ?_, ?_, (by intro hn; cases hn), ?_⟩, by simp⟩
+  rotate_left 6
+  · rw [List.map_append, List.pairwise_append]
+    refine ⟨h.sorted, by simp, ?_⟩
+    intro a ha b hb
+    simp only [List.map_cons, List.map_nil, List.mem_singleton] at hb
+    subst hb
+    obtain ⟨t, ht, rfl⟩ := List.mem_map.mp ha
+    exact h.ids t ht
   · simp only [h.prim, applyCmds_append]
   · simp only [h.appl]
   · intro more
@@ -401,10 +411,10 @@ theorem checkpoint_full {s c done liveL} (h : Bnd s c done liveL) :
       (run s (checkpointEffects c.lastCommitted)).acked = s.acked := by
   cases hc : c.lastCommitted with
   | none =>
-    refine ⟨liveL, ⟨h.prim, h.appl, h.scan, h.split, h.ids, by intro id hid; cases hid⟩, rfl⟩
+    refine ⟨liveL, ⟨h.prim, h.appl, h.scan, h.split, h.ids, (by intro id hid; cases hid), fun _ => h.noneLive hc, h.sorted⟩, rfl⟩
   | some id =>
     have hl := h.last id hc
-    refine ⟨[], ⟨?_, ?_, ?_, ⟨done, by simp⟩, by simp, by intro id' hid; cases hid⟩, rfl⟩
+    refine ⟨[], ⟨?_, ?_, ?_, ⟨done, by simp⟩, by simp, (by intro id' hid; cases hid), fun _ => rfl, by simp⟩, rfl⟩
     · simp [checkpointEffects, run, exec, h.prim]
     · simp [checkpointEffects, run, exec, h.appl]
     · intro more
@@ -412,6 +422,15 @@ theorem checkpoint_full {s c done liveL} (h : Bnd s c done liveL) :
       rw [h.scan]
       simp only [List.cons_append, List.nil_append, scanLive, hl.1, if_true]
       rw [filter_all_le liveL id hl.2]
+
+/-- after a completed checkpoint nothing is live -/
+theorem checkpoint_full_nil {s c done liveL} (h : Bnd s c done liveL) :
+    Bnd (run s (checkpointEffects c.lastCommitted)) { c with lastCommitted := none } done [] ∧
+      (run s (checkpointEffects c.lastCommitted)).acked = s.acked := by
+  obtain ⟨liveL', hb, hack⟩ := checkpoint_full h
+  have : liveL' = [] := hb.noneLive rfl
+  subst this
+  exact ⟨hb, hack⟩
 
 theorem checkpoint_step {s c done liveL} (h : Bnd s c done liveL) (es : List Effect)
     (hes : es <+: checkpointEffects c.lastCommitted) :
@@ -459,7 +478,7 @@ theorem rotate_full {s c done liveL} (h : Bnd s c done liveL) :
   unfold rotateEffects
   rw [run_append]
   generalize run s (checkpointEffects c.lastCommitted) = s1 at hb hack ⊢
-  refine ⟨⟨?_, ?_, ?_, ⟨done, by simp⟩, by simp, by intro id hid; cases hid⟩, ?_⟩
+  refine ⟨⟨?_, ?_, ?_, ⟨done, by simp⟩, by simp, (by intro id hid; cases hid), fun _ => rfl, by simp⟩, ?_⟩
   · simp [run, exec, hb.prim]
   · simp [run, exec, hb.appl]
   · intro more
